@@ -550,11 +550,59 @@ func (a Actor) Equals(with Item) bool {
 }
 
 func (e Endpoints) GobEncode() ([]byte, error) {
-	return nil, nil
+	var (
+		mm      = make(map[string][]byte)
+		err     error
+		hasData bool
+	)
+	encode := func(name string, it Item) {
+		if it == nil || err != nil {
+			return
+		}
+		if mm[name], err = gobEncodeItem(it); err == nil {
+			hasData = true
+		}
+	}
+	encode("uploadMedia", e.UploadMedia)
+	encode("oauthAuthorizationEndpoint", e.OauthAuthorizationEndpoint)
+	encode("oauthTokenEndpoint", e.OauthTokenEndpoint)
+	encode("provideClientKey", e.ProvideClientKey)
+	encode("signClientKey", e.SignClientKey)
+	encode("sharedInbox", e.SharedInbox)
+	if err != nil {
+		return nil, err
+	}
+	if !hasData {
+		return []byte{}, nil
+	}
+	bb := bytes.Buffer{}
+	g := gob.NewEncoder(&bb)
+	if err := g.Encode(mm); err != nil {
+		return nil, err
+	}
+	return bb.Bytes(), nil
 }
 
 func (e *Endpoints) GobDecode(data []byte) error {
-	return nil
+	if len(data) == 0 {
+		return nil
+	}
+	mm, err := gobDecodeObjectAsMap(data)
+	if err != nil {
+		return err
+	}
+	decode := func(name string, it *Item) {
+		if raw, ok := mm[name]; ok && err == nil {
+			*it, err = gobDecodeItem(raw)
+		}
+	}
+	decode("uploadMedia", &e.UploadMedia)
+	decode("oauthAuthorizationEndpoint", &e.OauthAuthorizationEndpoint)
+	decode("oauthTokenEndpoint", &e.OauthTokenEndpoint)
+	decode("provideClientKey", &e.ProvideClientKey)
+	decode("signClientKey", &e.SignClientKey)
+	decode("sharedInbox", &e.SharedInbox)
+	return err
 }
 
 func (p PublicKey) GobEncode() ([]byte, error) {
